@@ -72,6 +72,15 @@ def check(ctx) -> Result:
     rm_struct.m3_block_unitary(ctx, res, comps["BeamSplitter"].methods["get_unitary"], {"theta": "angle"})
     rm_struct.m3_block_unitary(ctx, res, comps["PhaseShifter"].methods["get_unitary"], {"self._phi": "angle"})
     rm_struct.m3_block_unitary(ctx, res, comps["Loss"].methods["get_unitary"], {"transmission ** 0.5": "a", "(1 - transmission) ** 0.5": "b"})
+    # compiling is read-only and components are only written on copies: U is the product for the *current* parameter
+    # values only if no read (U, copy, display, frozen copy) replaces or re-binds what a live component holds
+    from ..rules import rc_owner as _rc
+    from .c08 import READONLY as _RO
+    _rc.c1_self_readonly(ctx, res, _RO)
+    _rc.c2_copy_on_write(ctx, res)
     # check_loss validated before append is covered by D (C08); here: accepted range of check_loss
     re_guards.range_validator(ctx, res, ctx.func(UTILS, "check_loss"), "loss", 0, 1, norm=norm)
+    from ..rules import rz_falsy
+    nz = rz_falsy.none_checks(ctx, res, "C01", ())
+    res.floor("Z functions scanned", nz, 3)
     return res
